@@ -8,6 +8,7 @@ import (
 	"fmt"
 	"go/token"
 	"go/types"
+	"sort"
 	"strings"
 
 	"golang.org/x/tools/go/ssa"
@@ -125,13 +126,175 @@ func paramIndex(fn *ssa.Function, v ssa.Value) int {
 	return -1
 }
 
+// roleRef: where a role (row, selector index, …) arrives in a callee: parameter p, or field path f of the struct
+// parameter p (a refactoring may bundle the loose arguments into a struct)
+type roleRef struct {
+	p int
+	f []int
+}
+
+// fieldChain: v reads the field path `path` of parameter `root` of fn (through ssa.Field, or loads of FieldAddr on
+// the local copy of the parameter); path is empty when v is the parameter itself (or a whole load of its copy)
+func fieldChain(fn *ssa.Function, v ssa.Value) (root *ssa.Parameter, path []int, ok bool) {
+	v = stripCopies(v)
+	switch x := v.(type) {
+	case *ssa.Parameter:
+		return x, nil, true
+	case *ssa.Field:
+		r, p, ok := fieldChain(fn, x.X)
+		if !ok {
+			return nil, nil, false
+		}
+		return r, append(append([]int(nil), p...), x.Field), true
+	case *ssa.UnOp:
+		if x.Op != token.MUL {
+			return nil, nil, false
+		}
+		return addrChain(fn, x.X)
+	}
+	return nil, nil, false
+}
+
+func addrChain(fn *ssa.Function, a ssa.Value) (*ssa.Parameter, []int, bool) {
+	switch x := a.(type) {
+	case *ssa.FieldAddr:
+		r, p, ok := addrChain(fn, x.X)
+		if !ok {
+			return nil, nil, false
+		}
+		return r, append(append([]int(nil), p...), x.Field), true
+	case *ssa.Alloc:
+		for _, p := range fn.Params {
+			if localCopyOf(x, p) {
+				return p, nil, true
+			}
+		}
+	}
+	return nil, nil, false
+}
+
+func sameInts(a, b []int) bool {
+	if len(a) != len(b) {
+		return false
+	}
+	for i := range a {
+		if a[i] != b[i] {
+			return false
+		}
+	}
+	return true
+}
+
+// isRole: v is the value of role ref inside fn
+func isRole(fn *ssa.Function, v ssa.Value, ref roleRef) bool {
+	root, path, ok := fieldChain(fn, v)
+	return ok && paramIndex(fn, root) == ref.p && sameInts(path, ref.f)
+}
+
+// isRoleField: v reads field `name` of the (struct-valued) role ref inside fn
+func isRoleField(fn *ssa.Function, v ssa.Value, ref roleRef, name string) bool {
+	root, path, ok := fieldChain(fn, v)
+	if !ok || paramIndex(fn, root) != ref.p || len(path) != len(ref.f)+1 || !sameInts(path[:len(ref.f)], ref.f) {
+		return false
+	}
+	// the type of the role value
+	t := root.Type()
+	for _, i := range ref.f {
+		st, ok := t.Underlying().(*types.Struct)
+		if !ok || i >= st.NumFields() {
+			return false
+		}
+		t = st.Field(i).Type()
+	}
+	st, ok := t.Underlying().(*types.Struct)
+	last := path[len(path)-1]
+	return ok && last < st.NumFields() && st.Field(last).Name() == name
+}
+
+// structLiteralFields: a is a struct value assembled in a local (composite literal): field index → stored value
+func structLiteralFields(a ssa.Value) (map[int]ssa.Value, bool) {
+	u, ok := a.(*ssa.UnOp)
+	if !ok || u.Op != token.MUL {
+		return nil, false
+	}
+	al, ok := u.X.(*ssa.Alloc)
+	if !ok {
+		return nil, false
+	}
+	if _, isStruct := al.Type().Underlying().(*types.Pointer).Elem().Underlying().(*types.Struct); !isStruct {
+		return nil, false
+	}
+	out := map[int]ssa.Value{}
+	for _, r := range *al.Referrers() {
+		switch x := r.(type) {
+		case *ssa.FieldAddr:
+			for _, r2 := range *x.Referrers() {
+				if st, ok := r2.(*ssa.Store); ok && st.Addr == ssa.Value(x) {
+					if _, dup := out[x.Field]; dup {
+						return nil, false
+					}
+					out[x.Field] = st.Val
+				}
+			}
+		case *ssa.Store:
+			if x.Addr == ssa.Value(al) {
+				return nil, false // assigned as a whole: not a literal
+			}
+		}
+	}
+	return out, len(out) > 0
+}
+
+// passRoles: the roles known in fn (refs) as they arrive in a callee through the arguments of call
+func passRoles(fn *ssa.Function, call *ssa.Call, refs map[string]roleRef) map[string]roleRef {
+	out := map[string]roleRef{}
+	for i, a := range call.Call.Args {
+		root, path, ok := fieldChain(fn, a)
+		if !ok {
+			continue
+		}
+		for name, ref := range refs {
+			if paramIndex(fn, root) != ref.p || len(path) > len(ref.f) || !sameInts(path, ref.f[:len(path)]) {
+				continue
+			}
+			// the argument is the role itself (path == ref.f) or a struct containing it
+			out[name] = roleRef{p: i, f: append([]int(nil), ref.f[len(path):]...)}
+		}
+	}
+	return out
+}
+
+// inlineSimple: v is a call of a module function that is a single block ending in a one-value return: returns that
+// value and the binding of the callee's parameters
+func inlineSimple(P *Program, v ssa.Value) (ssa.Value, map[ssa.Value]ssa.Value, bool) {
+	c, ok := v.(*ssa.Call)
+	if !ok {
+		return nil, nil, false
+	}
+	g := c.Call.StaticCallee()
+	if g == nil || !P.InModule(g) || len(g.Blocks) != 1 {
+		return nil, nil, false
+	}
+	ret, ok := g.Blocks[0].Instrs[len(g.Blocks[0].Instrs)-1].(*ssa.Return)
+	if !ok || len(ret.Results) != 1 {
+		return nil, nil, false
+	}
+	env := map[ssa.Value]ssa.Value{}
+	for i, p := range g.Params {
+		if i < len(c.Call.Args) {
+			env[p] = c.Call.Args[i]
+		}
+	}
+	return ret.Results[0], env, true
+}
+
 func rulesC15(cx *Ctx) []Obligation {
 	P := cx.P
 	c := &c15{P: P}
 	egc := P.Func("plonk/gates", "(*EvaluateGatesChip).EvaluateGateConstraints")
 	ef := P.Func("plonk/gates", "(*EvaluateGatesChip).evalFiltered")
 	cf := P.Func("plonk/gates", "(*EvaluateGatesChip).computeFilter")
-	rp := P.Func("plonk/gates", "(*EvaluationVars).RemovePrefix")
+	rp := findStripFn(P)
 	ns := P.Func("plonk/gates", "(*SelectorsInfo).NumSelectors")
 	mulE := P.Func("goldilocks", "(*Chip).MulExtension")
 	addE := P.Func("goldilocks", "(*Chip).AddExtension")
@@ -159,7 +322,7 @@ func rulesC15(cx *Ctx) []Obligation {
 // ---- EvaluateGateConstraints: every gate, own selector index / group, position-wise sum
 
 // sum returns the parameter positions of evalFiltered by role (gate, vars, row, sel, group, nsel)
-func (c *c15) sum(egc, ef, ns, addE *ssa.Function) map[string]int {
+func (c *c15) sum(egc, ef, ns, addE *ssa.Function) map[string]roleRef {
 	P := c.P
 	fi := GetFnInfo(egc)
 	recv := ssa.Value(egc.Params[0])
@@ -180,13 +343,36 @@ func (c *c15) sum(egc, ef, ns, addE *ssa.Function) map[string]int {
 		return nil
 	}
 	site := P.Pos(call.Pos())
-	roles := map[string]int{}
+	roles := map[string]roleRef{}
 	var gatesSlice, iv ssa.Value
 	var loop *SLoop
 	args := call.Call.Args
-	// the gate argument fixes the loop
+	// the leaf values handed over: loose arguments, or the fields of a struct literal argument
+	type leaf struct {
+		v   ssa.Value
+		ref roleRef
+	}
+	var leaves []leaf
 	for i, a := range args {
-		u, ok := a.(*ssa.UnOp)
+		if i == 0 {
+			continue
+		}
+		if fs, ok := structLiteralFields(a); ok {
+			var idxs []int
+			for f := range fs {
+				idxs = append(idxs, f)
+			}
+			sort.Ints(idxs)
+			for _, f := range idxs {
+				leaves = append(leaves, leaf{fs[f], roleRef{p: i, f: []int{f}}})
+			}
+			continue
+		}
+		leaves = append(leaves, leaf{a, roleRef{p: i}})
+	}
+	// the gate argument fixes the loop
+	for _, lf := range leaves {
+		u, ok := lf.v.(*ssa.UnOp)
 		if !ok || u.Op != token.MUL {
 			continue
 		}
@@ -198,7 +384,7 @@ func (c *c15) sum(egc, ef, ns, addE *ssa.Function) map[string]int {
 		if l == nil {
 			continue
 		}
-		roles["gate"] = i
+		roles["gate"] = lf.ref
 		gatesSlice, iv, loop = ia.X, stripCopies(ia.Index), l
 	}
 	if loop == nil {
@@ -214,13 +400,11 @@ func (c *c15) sum(egc, ef, ns, addE *ssa.Function) map[string]int {
 		return nil
 	}
 	var selVal ssa.Value
-	for i, a := range args {
-		if i == 0 || i == roles["gate"] {
-			continue
-		}
+	for _, lf := range leaves {
+		a := lf.v
 		switch {
 		case stripCopies(a) == iv:
-			roles["row"] = i
+			roles["row"] = lf.ref
 		case func() bool {
 			u, ok := a.(*ssa.UnOp)
 			if !ok || u.Op != token.MUL {
@@ -229,25 +413,25 @@ func (c *c15) sum(egc, ef, ns, addE *ssa.Function) map[string]int {
 			ia, ok := u.X.(*ssa.IndexAddr)
 			return ok && recvFieldPath(ia.X, recv, "selectorsInfo", "selectorIndices") && stripCopies(ia.Index) == iv
 		}():
-			roles["sel"] = i
+			roles["sel"] = lf.ref
 			selVal = a
 		case func() bool {
 			cc, ok := callTo(a, ns)
 			return ok && recvFieldAddr(cc.Call.Args[0], recv, "selectorsInfo")
 		}():
-			roles["nsel"] = i
+			roles["nsel"] = lf.ref
 		case paramIndex(egc, a) > 0:
-			roles["vars"] = i
+			roles["vars"] = lf.ref
 		}
 	}
-	for i, a := range args {
-		u, ok := a.(*ssa.UnOp)
+	for _, lf := range leaves {
+		u, ok := lf.v.(*ssa.UnOp)
 		if !ok || u.Op != token.MUL || selVal == nil {
 			continue
 		}
 		ia, ok := u.X.(*ssa.IndexAddr)
 		if ok && recvFieldPath(ia.X, recv, "selectorsInfo", "groups") && stripCopies(ia.Index) == stripCopies(selVal) {
-			roles["group"] = i
+			roles["group"] = lf.ref
 		}
 	}
 	for _, r := range []string{"gate", "vars", "row", "sel", "group", "nsel"} {
@@ -257,7 +441,7 @@ func (c *c15) sum(egc, ef, ns, addE *ssa.Function) map[string]int {
 			return nil
 		}
 	}
-	if len(roles) != len(args)-1 {
+	if len(roles) != len(leaves) {
 		c.und(key, desc, "evalFiltered has arguments the rule does not know")
 		return nil
 	}
@@ -370,10 +554,10 @@ func blockDominates(a, b *ssa.BasicBlock) bool {
 
 // ---- evalFiltered: filter from the un-stripped selector constant, prefix removed before the gate, every constraint × filter
 
-func (c *c15) filtered(ef, cf, rp, mulE *ssa.Function, roles map[string]int) map[string]int {
+func (c *c15) filtered(ef, cf, rp, mulE *ssa.Function, roles map[string]roleRef) map[string]roleRef {
 	P := c.P
 	fi := GetFnInfo(ef)
-	par := func(r string) *ssa.Parameter { return ef.Params[roles[r]] }
+	is := func(v ssa.Value, r string) bool { return isRole(ef, v, roles[r]) }
 	var cfCall, rpCall *ssa.Call
 	var inv *ssa.Call
 	ncf, nrp, ninv := 0, 0, 0
@@ -390,7 +574,7 @@ func (c *c15) filtered(ef, cf, rp, mulE *ssa.Function, roles map[string]int) map
 			case cc.Call.StaticCallee() == rp:
 				rpCall = cc
 				nrp++
-			case cc.Call.IsInvoke() && cc.Call.Method.Name() == "EvalUnfiltered" && cc.Call.Value == ssa.Value(par("gate")):
+			case cc.Call.IsInvoke() && cc.Call.Method.Name() == "EvalUnfiltered" && is(cc.Call.Value, "gate"):
 				inv = cc
 				ninv++
 			}
@@ -399,85 +583,100 @@ func (c *c15) filtered(ef, cf, rp, mulE *ssa.Function, roles map[string]int) map
 	key := "C15/filter/arguments"
 	desc := "evalFiltered computes the filter from its own row, its own group range, the selector constant localConstants[selectorIndex] read BEFORE the selector prefix is stripped, and manySelectors = numSelectors > 1"
 	if ncf != 1 || nrp != 1 || ninv != 1 {
-		c.und(key, desc, fmt.Sprintf("evalFiltered has %d computeFilter / %d RemovePrefix / %d gate.EvalUnfiltered calls (expected one each)", ncf, nrp, ninv))
+		c.und(key, desc, fmt.Sprintf("evalFiltered has %d computeFilter / %d prefix-stripping / %d gate.EvalUnfiltered calls (expected one each)", ncf, nrp, ninv))
 		return nil
 	}
 	site := P.Pos(cfCall.Pos())
-	froles := map[string]int{}
+	// the roles that reach computeFilter as they are (loose or inside the struct that bundles them)
+	froles := passRoles(ef, cfCall, map[string]roleRef{"row": roles["row"], "group": roles["group"], "nsel": roles["nsel"]})
 	var selLoad *ssa.UnOp
+	varsRef := roles["vars"]
 	for i, a := range cfCall.Call.Args {
 		if i == 0 {
 			continue
 		}
 		switch {
-		case a == ssa.Value(par("row")):
-			froles["row"] = i
-		case a == ssa.Value(par("group")):
-			froles["group"] = i
 		case func() bool {
 			u, ok := a.(*ssa.UnOp)
 			if !ok || u.Op != token.MUL {
 				return false
 			}
 			ia, ok := u.X.(*ssa.IndexAddr)
-			if !ok || stripCopies(ia.Index) != ssa.Value(par("sel")) {
+			if !ok || !is(ia.Index, "sel") {
 				return false
 			}
 			lu, ok := ia.X.(*ssa.UnOp)
-			if !ok || !paramField(lu, par("vars"), "localConstants") {
+			if !ok || !isRoleField(ef, lu, varsRef, "localConstants") {
 				return false
 			}
 			selLoad = lu
 			return true
 		}():
-			froles["s"] = i
+			froles["s"] = roleRef{p: i}
 		case func() bool {
 			bo, ok := a.(*ssa.BinOp)
 			if !ok {
 				return false
 			}
-			if k, ok := constInt(bo.Y); ok && bo.X == ssa.Value(par("nsel")) {
+			if k, ok := constInt(bo.Y); ok && is(bo.X, "nsel") {
 				return (bo.Op == token.GTR && k == 1) || (bo.Op == token.GEQ && k == 2)
 			}
-			if k, ok := constInt(bo.X); ok && bo.Y == ssa.Value(par("nsel")) {
+			if k, ok := constInt(bo.X); ok && is(bo.Y, "nsel") {
 				return (bo.Op == token.LSS && k == 1) || (bo.Op == token.LEQ && k == 2)
 			}
 			return false
 		}():
-			froles["many"] = i
+			froles["many"] = roleRef{p: i}
 		}
 	}
-	for _, r := range []string{"row", "group", "s", "many"} {
+	_, hasMany := froles["many"]
+	_, hasNsel := froles["nsel"]
+	for _, r := range []string{"row", "group", "s"} {
 		if _, ok := froles[r]; !ok {
-			what := map[string]string{"row": "the row parameter", "group": "the group-range parameter", "s": "vars.localConstants[selectorIndex]", "many": "numSelectors > 1"}[r]
-			c.bad(key, desc, "no argument of computeFilter is "+what, site)
+			what := map[string]string{"row": "the row", "group": "the group range", "s": "vars.localConstants[selectorIndex]"}[r]
+			c.bad(key, desc, "computeFilter does not receive "+what, site)
 			return nil
 		}
 	}
-	// the selector constant is read before RemovePrefix mutates the local copy of vars
+	if !hasMany && !hasNsel {
+		c.bad(key, desc, "computeFilter receives neither numSelectors > 1 nor numSelectors", site)
+		return nil
+	}
+	// the selector constant is read before the prefix is stripped
 	if !instrBefore(selLoad, rpCall) {
-		c.bad(key, desc, "the selector constant is read after RemovePrefix stripped the selector prefix", site)
+		c.bad(key, desc, "the selector constant is read after the selector prefix was stripped", site)
 		return nil
 	}
 	c.good(key, desc, site)
 
 	key = "C15/filter/prefix-stripped"
-	desc = "the gate sees its constants without the selector prefix: RemovePrefix(numSelectors) is applied to the local copy of vars on every path before gate.EvalUnfiltered receives it"
+	desc = "the gate sees its constants without the selector prefix: the prefix of numSelectors constants is stripped from the local copy of vars on every path before gate.EvalUnfiltered receives it"
 	rsite := P.Pos(rpCall.Pos())
-	varsAlloc := rpCall.Call.Args[0]
+	// two idioms: (pointer) vars.RemovePrefix(n) mutates the local copy; (value) stripped := vars.WithoutPrefix(n)
+	recvArg := rpCall.Call.Args[0]
+	ptrForm := false
+	var varsAlloc ssa.Value
+	if r, pth, ok := addrChain(ef, recvArg); ok && paramIndex(ef, r) == varsRef.p && sameInts(pth, varsRef.f) {
+		ptrForm, varsAlloc = true, recvArg
+	}
+	valForm := !ptrForm && is(recvArg, "vars") && rpCall.Call.Signature().Results().Len() == 1
 	switch {
-	case !localCopyOf(varsAlloc, par("vars")):
-		c.und(key, desc, "RemovePrefix is not applied to the local copy of the vars parameter at "+rsite)
-	case rpCall.Call.Args[1] != ssa.Value(par("nsel")):
-		c.bad(key, desc, "RemovePrefix is not called with numSelectors", rsite)
+	case !ptrForm && !valForm:
+		c.und(key, desc, "the prefix-stripping function is not applied to the vars parameter (or its local copy) at "+rsite)
+	case len(rpCall.Call.Args) < 2 || !is(rpCall.Call.Args[1], "nsel"):
+		c.bad(key, desc, "the prefix is not stripped by numSelectors", rsite)
 	case !fi.MustBlock(rpCall.Block()):
-		c.bad(key, desc, "RemovePrefix is not executed on every path", rsite)
+		c.bad(key, desc, "the prefix is not stripped on every path", rsite)
 	case !instrBefore(rpCall, inv):
 		c.bad(key, desc, "gate.EvalUnfiltered runs before the prefix is stripped", rsite)
 	default:
 		okArg := false
 		for _, a := range inv.Call.Args {
-			if u, ok := a.(*ssa.UnOp); ok && u.Op == token.MUL && u.X == varsAlloc && instrBefore(rpCall, u) {
+			if ptrForm {
+				if u, ok := a.(*ssa.UnOp); ok && u.Op == token.MUL && u.X == varsAlloc && instrBefore(rpCall, u) {
+					okArg = true
+				}
+			} else if a == ssa.Value(rpCall) {
 				okArg = true
 			}
 		}
@@ -577,10 +776,13 @@ func instrBefore(a, b ssa.Instruction) bool {
 
 // ---- computeFilter: ∏_{i ∈ [start,end), i ≠ row} (i − s) · (UNUSED_SELECTOR − s if many selectors)
 
-func (c *c15) product(cf, mulE, subE *ssa.Function, roles map[string]int) {
+func (c *c15) product(cf, mulE, subE *ssa.Function, roles map[string]roleRef) {
 	P := c.P
 	fi := GetFnInfo(cf)
-	par := func(r string) *ssa.Parameter { return cf.Params[roles[r]] }
+	is := func(v ssa.Value, r string) bool {
+		ref, ok := roles[r]
+		return ok && isRole(cf, v, ref)
+	}
 	key := "C15/filter/product"
 	desc := "computeFilter returns ∏ (i − s) over i from groupRange.start to groupRange.end−1 skipping exactly i = row, times (UNUSED_SELECTOR − s) exactly when there are several selector polynomials; UNUSED_SELECTOR = 2^32−1 as in plonky2"
 	site := P.FnName(cf)
@@ -588,10 +790,23 @@ func (c *c15) product(cf, mulE, subE *ssa.Function, roles map[string]int) {
 	newQE := P.Func("goldilocks", "NewQuadraticExtensionVariable")
 	newV := P.Func("goldilocks", "NewVariable")
 	zero := P.Func("goldilocks", "Zero")
-	// factor(v, isX): v = SubExtension(_, QE(NewVariable(x), Zero()), s) with isX(x)
-	factor := func(v ssa.Value, isX func(ssa.Value) bool) bool {
+	// factor(v, isX): v = SubExtension(_, QE(NewVariable(x), Zero()), s) with isX(x) — directly, or through a
+	// one-block helper of the module that computes it from its arguments (then x and s are seen through the binding)
+	var factorSub func(v ssa.Value, isX func(ssa.Value) bool, sub func(ssa.Value) ssa.Value, depth int) bool
+	factorSub = func(v ssa.Value, isX func(ssa.Value) bool, sub func(ssa.Value) ssa.Value, depth int) bool {
 		sc, ok := callTo(v, subE)
-		if !ok || sc.Call.Args[2] != ssa.Value(par("s")) {
+		if !ok {
+			if ret, env, ok := inlineSimple(P, v); ok && depth < 2 {
+				return factorSub(ret, isX, func(x ssa.Value) ssa.Value {
+					if b, ok := env[stripCopies(x)]; ok {
+						return sub(b)
+					}
+					return x
+				}, depth+1)
+			}
+			return false
+		}
+		if !is(sub(sc.Call.Args[2]), "s") {
 			return false
 		}
 		q, ok := callTo(sc.Call.Args[1], newQE)
@@ -605,7 +820,10 @@ func (c *c15) product(cf, mulE, subE *ssa.Function, roles map[string]int) {
 		if !ok || len(nv.Call.Args) != 1 {
 			return false
 		}
-		return isX(stripCopies(nv.Call.Args[0]))
+		return isX(stripCopies(sub(stripCopies(nv.Call.Args[0]))))
+	}
+	factor := func(v ssa.Value, isX func(ssa.Value) bool) bool {
+		return factorSub(v, isX, func(x ssa.Value) ssa.Value { return x }, 0)
 	}
 	times := func(v ssa.Value, acc ssa.Value, isX func(ssa.Value) bool) bool {
 		m, ok := callTo(v, mulE)
@@ -624,11 +842,11 @@ func (c *c15) product(cf, mulE, subE *ssa.Function, roles map[string]int) {
 		c.bad(key, desc, "the loop is not `for i := start; i < end; i++` without break", site)
 		return
 	}
-	if !paramField(l.StartVal, par("group"), "start") {
+	if !isRoleField(cf, l.StartVal, roles["group"], "start") {
 		c.bad(key, desc, "the product does not start at groupRange.start", site)
 		return
 	}
-	if !paramField(l.Bound, par("group"), "end") {
+	if !isRoleField(cf, l.Bound, roles["group"], "end") {
 		c.bad(key, desc, "the product does not run up to (excluding) groupRange.end", site)
 		return
 	}
@@ -696,7 +914,7 @@ func (c *c15) product(cf, mulE, subE *ssa.Function, roles map[string]int) {
 	}
 	bo, ok := iff.Cond.(*ssa.BinOp)
 	isCmp := ok && (bo.Op == token.EQL || bo.Op == token.NEQ) &&
-		((stripCopies(bo.X) == iv && stripCopies(bo.Y) == ssa.Value(par("row"))) || (stripCopies(bo.Y) == iv && stripCopies(bo.X) == ssa.Value(par("row"))))
+		((stripCopies(bo.X) == iv && is(bo.Y, "row")) || (stripCopies(bo.Y) == iv && is(bo.X, "row")))
 	if !isCmp {
 		c.bad(key, desc, "the skipped iteration is not decided by i == row", P.Pos(iff.Pos()))
 		return
@@ -767,7 +985,19 @@ func (c *c15) product(cf, mulE, subE *ssa.Function, roles map[string]int) {
 	if u, ok := cond.(*ssa.UnOp); ok && u.Op == token.NOT {
 		cond, neg = u.X, true
 	}
-	if cond != ssa.Value(par("many")) {
+	isMany := is(cond, "many")
+	if !isMany {
+		// manySelector derived locally from the number of selector polynomials
+		if bo, ok := stripCopies(cond).(*ssa.BinOp); ok {
+			if k, ok := constInt(bo.Y); ok && is(bo.X, "nsel") && ((bo.Op == token.GTR && k == 1) || (bo.Op == token.GEQ && k == 2)) {
+				isMany = true
+			}
+			if k, ok := constInt(bo.X); ok && is(bo.Y, "nsel") && ((bo.Op == token.LSS && k == 1) || (bo.Op == token.LEQ && k == 2)) {
+				isMany = true
+			}
+		}
+	}
+	if !isMany {
 		c.bad(key, desc, "the factor (UNUSED_SELECTOR − s) is not decided by manySelector", P.Pos(iff2.Pos()))
 		return
 	}
@@ -779,37 +1009,137 @@ func (c *c15) product(cf, mulE, subE *ssa.Function, roles map[string]int) {
 	c.good(key, desc, site)
 }
 
-func (c *c15) removePrefix(rp *ssa.Function) {
-	key := "C15/filter/remove-prefix"
-	desc := "RemovePrefix(n) replaces localConstants by localConstants[n:] (drops exactly the n selector constants from the front)"
-	site := c.P.FnName(rp)
-	recv := ssa.Value(rp.Params[0])
-	n := 0
-	okk := false
-	for _, b := range rp.Blocks {
-		for _, ins := range b.Instrs {
-			st, ok := ins.(*ssa.Store)
-			if !ok {
-				continue
-			}
-			n++
-			if !recvFieldAddr(st.Addr, recv, "localConstants") {
-				continue
-			}
-			sl, ok := st.Val.(*ssa.Slice)
-			if !ok || sl.High != nil || sl.Max != nil || sl.Low == nil {
-				continue
-			}
-			if stripCopies(sl.Low) == ssa.Value(rp.Params[1]) && recvFieldPath(sl.X, recv, "localConstants") {
-				okk = true
+// findStripFn: the method of EvaluationVars that drops a prefix of the local constants — identified by what it does
+// (it slices the receiver's localConstants from its argument), not by its name
+func findStripFn(P *Program) *ssa.Function {
+	for _, fn := range P.ModuleFuncsSorted() {
+		if fnPkgShort(fn) != "plonk/gates" || fn.Signature.Recv() == nil || len(fn.Params) != 2 || len(fn.Blocks) == 0 {
+			continue
+		}
+		rt := fn.Signature.Recv().Type()
+		if pt, ok := rt.(*types.Pointer); ok {
+			rt = pt.Elem()
+		}
+		if n, ok := rt.(*types.Named); !ok || n.Obj().Name() != "EvaluationVars" {
+			continue
+		}
+		for _, b := range fn.Blocks {
+			for _, ins := range b.Instrs {
+				if sl, ok := ins.(*ssa.Slice); ok && sl.Low != nil && stripCopies(sl.Low) == ssa.Value(fn.Params[1]) {
+					if isRoleField(fn, sl.X, roleRef{p: 0}, "localConstants") || recvFieldPath(sl.X, fn.Params[0], "localConstants") {
+						return fn
+					}
+				}
 			}
 		}
 	}
-	if okk && n == 1 && len(rp.Blocks) == 1 {
-		c.good(key, desc, site)
-	} else {
-		c.bad(key, desc, "RemovePrefix is not the single assignment e.localConstants = e.localConstants[numSelectors:]", site)
+	return nil
+}
+
+func (c *c15) removePrefix(rp *ssa.Function) {
+	key := "C15/filter/remove-prefix"
+	desc := "the prefix-stripping method replaces localConstants by localConstants[n:] (drops exactly the n selector constants from the front) and leaves the other fields as they are"
+	site := c.P.FnName(rp)
+	recv := ssa.Value(rp.Params[0])
+	isStrip := func(v ssa.Value) bool {
+		sl, ok := v.(*ssa.Slice)
+		if !ok || sl.High != nil || sl.Max != nil || sl.Low == nil || stripCopies(sl.Low) != ssa.Value(rp.Params[1]) {
+			return false
+		}
+		return recvFieldPath(sl.X, recv, "localConstants") || isRoleField(rp, sl.X, roleRef{p: 0}, "localConstants")
 	}
+	if len(rp.Blocks) != 1 {
+		c.bad(key, desc, "the method has branches", site)
+		return
+	}
+	if _, isPtr := rp.Signature.Recv().Type().(*types.Pointer); isPtr {
+		// pointer form: the single assignment e.localConstants = e.localConstants[n:]
+		n, okk := 0, false
+		for _, ins := range rp.Blocks[0].Instrs {
+			if st, ok := ins.(*ssa.Store); ok {
+				n++
+				if recvFieldAddr(st.Addr, recv, "localConstants") && isStrip(st.Val) {
+					okk = true
+				}
+			}
+		}
+		if okk && n == 1 {
+			c.good(key, desc, site)
+		} else {
+			c.bad(key, desc, "the method is not the single assignment e.localConstants = e.localConstants[numSelectors:]", site)
+		}
+		return
+	}
+	// value form: returns a copy whose localConstants is the stripped slice and whose other fields are the receiver's
+	ret, ok := rp.Blocks[0].Instrs[len(rp.Blocks[0].Instrs)-1].(*ssa.Return)
+	if !ok || len(ret.Results) != 1 {
+		c.bad(key, desc, "the value-receiver method does not return the stripped copy", site)
+		return
+	}
+	fields, isLit := structLiteralFields(ret.Results[0])
+	st, _ := rp.Params[0].Type().Underlying().(*types.Struct)
+	if !isLit {
+		// the receiver copy itself, with only localConstants overwritten
+		if u, ok := ret.Results[0].(*ssa.UnOp); ok {
+			if al, ok := u.X.(*ssa.Alloc); ok && localCopyOfPlus(al, rp.Params[0]) {
+				fields, isLit = allocFieldStores(al), true
+				for i := 0; st != nil && i < st.NumFields(); i++ {
+					if _, has := fields[i]; !has {
+						fields[i] = nil // untouched: still the receiver's value
+					}
+				}
+			}
+		}
+	}
+	if !isLit || st == nil {
+		c.und(key, desc, "the returned value is not a recognisable copy of the receiver")
+		return
+	}
+	for i := 0; i < st.NumFields(); i++ {
+		v, has := fields[i]
+		name := st.Field(i).Name()
+		switch {
+		case name == "localConstants":
+			if !has || v == nil || !isStrip(v) {
+				c.bad(key, desc, "the returned localConstants is not e.localConstants[numSelectors:]", site)
+				return
+			}
+		case has && v == nil:
+			// untouched field of the receiver's copy
+		case !has || !isRoleField(rp, v, roleRef{p: 0}, name):
+			c.bad(key, desc, "field "+name+" of the returned copy is not the receiver's "+name, site)
+			return
+		}
+	}
+	c.good(key, desc, site)
+}
+
+// localCopyOfPlus: the alloc is initialised from parameter p as a whole (field stores may follow)
+func localCopyOfPlus(al *ssa.Alloc, p *ssa.Parameter) bool {
+	n := 0
+	for _, r := range *al.Referrers() {
+		if st, ok := r.(*ssa.Store); ok && st.Addr == ssa.Value(al) {
+			n++
+			if st.Val != ssa.Value(p) {
+				return false
+			}
+		}
+	}
+	return n == 1
+}
+
+func allocFieldStores(al *ssa.Alloc) map[int]ssa.Value {
+	out := map[int]ssa.Value{}
+	for _, r := range *al.Referrers() {
+		if fa, ok := r.(*ssa.FieldAddr); ok {
+			for _, r2 := range *fa.Referrers() {
+				if st, ok := r2.(*ssa.Store); ok && st.Addr == ssa.Value(fa) {
+					out[fa.Field] = st.Val
+				}
+			}
+		}
+	}
+	return out
 }
 
 func (c *c15) numSelectors(ns *ssa.Function) {
